@@ -290,3 +290,11 @@ MODEL_DOC[MEM_MODELS[0][0]] = "mem::replace(&mut dest, src): stores src, returns
 
 TRACING_MODELS = [(r"^<Level as PartialOrd<LevelFilter>>::le$", lambda ex, st, c, a, d, s: z3.BoolVal(False))]
 MODEL_DOC[TRACING_MODELS[0][0]] = "tracing: Level <= LevelFilter is false (logging off; log statements are not the subject)"
+
+
+def m_vec_u8_is_empty(ex, st, callee, args, dty, site):
+    return length_of(ex, args[0]) == 0
+
+
+STRING_MODELS += [(r"^Vec::<u8>::is_empty$", m_vec_u8_is_empty)]
+MODEL_DOC[r"^Vec::<u8>::is_empty$"] = "Vec<u8>::is_empty <=> abstract length == 0"
